@@ -1,2 +1,3 @@
 pub mod slotmap;
 pub mod slot;
+pub mod shape;
